@@ -122,6 +122,44 @@ impl StepMonitor for AccessMon {
     }
 }
 
+/// reused instance: a first transaction lists *every* deployed contract as input, then the
+/// scenario's transaction (which lists fewer) runs on the same interpreter
+fn reuse_case(cfg: &Cfg, worker: u64, idx: u64, rep: &mut Report) {
+    let mut rng = Rng::derive(cfg.seed ^ (0x30c << 32), worker, idx);
+    let mut w = Weights::default();
+    w.call = 14;
+    w.money = 10;
+    w.query = 12;
+    w.hostile = 150;
+    let o = ScenarioOpts { weights: w.clone(), contract_weights: w, ..Default::default() };
+    let sc = scenario::build(&mut rng, &o);
+    let replay = super::grp_e::replay_record(cfg.seed, 0x30c, worker, idx, &sc);
+    let Ok(ready2) = sc.spec.ready(&sc.world, idx) else { return };
+    let first = ScriptSpec {
+        script: vec![],
+        gas_limit: 1000,
+        coins: vec![(0, 0, 1_000_000)],
+        contracts: sc.world.contracts.iter().map(|c| c.id).collect(),
+        ..Default::default()
+    };
+    let Ok(ready1) = first.ready(&sc.world, idx ^ 0xffff) else { return };
+    let mut vm = crate::world::new_vm(&sc.world);
+    let _ = guarded(|| vm.transact(ready1).map(|s| *s.state()));
+    *vm.as_mut() = RecStorage::new(sc.world.storage.clone());
+    let mut mon = AccessMon { inputs: BTreeSet::new(), deployed: sc.world.contracts.iter().map(|c| c.id).collect() };
+    let mut case = Report::new();
+    {
+        let mut refs: Vec<&mut dyn StepMonitor> = vec![&mut mon];
+        let _ = crate::stepbus::run_stepped_on(&sc.world, &mut vm, ready2, &BusOpts { capture_mem: true, max_steps: 20_000 }, &mut refs, &mut case);
+    }
+    for v in case.violations.iter_mut() {
+        v.what = format!("{} [second transaction on a reused interpreter whose first transaction listed every deployed contract]", v.what);
+        v.replay = json!({"case": replay, "kind": "reuse"});
+    }
+    rep.merge(case);
+    rep.count("reused_interpreter_cases");
+}
+
 /// predicate execution never touches contract state
 fn predicate_case(cfg: &Cfg, worker: u64, idx: u64, rep: &mut Report) {
     let mut rng = Rng::derive(cfg.seed ^ (0x30b << 32), worker, idx);
@@ -197,6 +235,21 @@ fn predicate_case(cfg: &Cfg, worker: u64, idx: u64, rep: &mut Report) {
 }
 
 pub fn run(cfg: &Cfg) -> Report {
+    if let Some(r) = &cfg.replay {
+        if r["kind"].as_str() == Some("reuse") || r["kind"].as_str() == Some("predicate") {
+            let c = r.get("case").unwrap_or(r);
+            let mut c2 = cfg.clone();
+            c2.seed = c["seed"].as_u64().unwrap_or(cfg.seed);
+            let (w, i) = (c["worker"].as_u64().unwrap_or(0), c["index"].as_u64().unwrap_or(0));
+            let mut rep = Report::new();
+            if r["kind"].as_str() == Some("reuse") {
+                reuse_case(&c2, w, i, &mut rep);
+            } else {
+                predicate_case(&c2, w, i, &mut rep);
+            }
+            return rep;
+        }
+    }
     let opts = |idx: u64, _rng: &mut Rng| {
         let mut w = Weights::default();
         w.call = 12;
@@ -217,6 +270,9 @@ pub fn run(cfg: &Cfg) -> Report {
             let mut r = Report::new();
             for i in 0..per {
                 predicate_case(cfg, w as u64, i, &mut r);
+            }
+            for i in 0..per {
+                reuse_case(cfg, w as u64, i, &mut r);
             }
             r
         });
